@@ -392,14 +392,12 @@ class Exec(Engine):
             va, vb = ma.get(k), mb.get(k)
             if va is None or vb is None:
                 if heap is not None:
-                    # lazily created on one side only: materialise on the other with the same name
+                    # present on one side only (read or assigned there): the other side still holds its initial value
                     a, b = heap
-                    if va is None and a.hver.get(k, 0) == b.hver.get(k, 0):
-                        va = vb
-                    elif vb is None and a.hver.get(k, 0) == b.hver.get(k, 0):
-                        vb = va
-                    else:
-                        return None
+                    if va is None:
+                        va = self.heap_init_value(a, k)
+                    if vb is None:
+                        vb = self.heap_init_value(b, k)
                 else:
                     # variable defined on one branch only: keep the paths apart
                     return None
@@ -1294,8 +1292,12 @@ class Exec(Engine):
             cf.result = res
             cf.old = old
             self.run_ghost(c.ghost_after.get("call"), cf)
-            for name, f in self.eval_clauses(c.ensures, cf):
+            keep = None
+            if isinstance(skip_pre, dict) and short in skip_pre:
+                keep = set(skip_pre[short])     # precondition not discharged here: only these (frame) clauses are assumed
+            for name, f in self.eval_clauses([cl for cl in c.ensures if keep is None or cl[0] in keep], cf):
                 st.assume(f)
+            self.resolve_aliases(st, [v for v in env.values() if v.k == "obj"])
             hook = c.hooks.get("after_call")
             if hook:
                 hook(self, cf, res)
@@ -1327,6 +1329,20 @@ class Exec(Engine):
             return outs
         finally:
             st.env = saved
+
+    def resolve_aliases(self, st, candidates):
+        """Heap cells are keyed by the object *term*.  After a contract was applied, an object-valued field that was
+        havocked and is now known (from the postcondition) to equal an object already in scope is re-pointed at that
+        object, so that `x.crop.location` and `crop.location` are the same cell."""
+        if not candidates:
+            return
+        for key, v in list(st.heap.items()):
+            if v.k != "obj" or any(v.t is c_.t or z3.eq(v.t, c_.t) for c_ in candidates):
+                continue
+            for c_ in candidates:
+                if c_.meta.get("cls") == v.meta.get("cls") and self.entails(st, v.t == c_.t, timeout=300):
+                    st.heap[key] = c_
+                    break
 
     def fresh_result(self, kind, base):
         if kind == "none":
